@@ -1,6 +1,7 @@
 """Symbol sweep: generators of make() calls, execution on the real segno (public API), correspondence
 with the Lean model, judging by the Lean spec.  Used by C01-C07 and C13."""
 import codecs
+import random
 from enc import *
 
 CAP = None
@@ -232,13 +233,17 @@ def gen_requested_version_gap(rnd, count):
         g, v = rnd.choice([(0, 1), (0, 1), (9, 10), (26, 27)])
         e = rnd.choice([x for x in levels_of(g) if x is not None and (v, x) in _tables()])
         capg, capv = _tables()[(g, e)], _tables()[(v, e)]
-        k = rnd.randint(4, 9) if g == 0 else rnd.randint(20, 90)
+        # as many segments as the capacity gain of the larger version needs to be outgrown by the longer length fields
+        # (9 -> 10: byte +8, numeric / alphanumeric +2; 26 -> 27: numeric / alphanumeric +2, byte +0)
+        pair = (1, 2) if g != 9 else (4, rnd.choice([1, 1, 2]))
+        growth = sum(header_bits(v, m) - header_bits(g, m) for m in pair)
+        k = rnd.randint(4, 9) if g == 0 else 2 * ((capv - capg) // growth + 1 + rnd.randint(0, 3))
         parts, bg, bv = [], 0, 0
         for i in range(k):
-            m = (1, 2)[i % 2] if rnd.random() < 0.8 else rnd.choice([1, 2, 4])
+            m = pair[i % 2] if g != 0 else ((1, 2)[i % 2] if rnd.random() < 0.8 else rnd.choice([1, 2, 4]))
             if parts and parts[-1][1] == m:
                 m = 1 if m != 1 else 2
-            n = rnd.randint(1, 5)
+            n = rnd.randint(1, 5) if g == 0 else (1 if capg < 1100 else rnd.choice([1, 1, 2, 3]))
             parts.append((content_for(rnd, m, n), m))
             bg += header_bits(g, m) + bits_for(m, n)
             bv += header_bits(v, m) + bits_for(m, n)
@@ -262,6 +267,8 @@ def gen_requested_version_gap(rnd, count):
             kw['micro'] = False if g > 0 else None
         yield Case(parts + [(content_for(rnd, 1, n), 1)], kw, 'requested-version-gap')
         yield Case(parts + [(content_for(rnd, 1, n), 1)], dict(kw, version=None), 'requested-version-gap-auto')
+        if g > 0:
+            yield Case(parts + [(content_for(rnd, 1, n), 1)], dict(kw, version=g), 'requested-version-gap-fits')
         made += 1
 
 
@@ -457,6 +464,10 @@ def sym_line(idx, case, want_c06=True):
     return ' '.join(f)
 
 
+def _sequential_child(args_list):
+    return [_impl_one(a) for a in args_list]
+
+
 def _threaded_child(args_list):
     """runs in a forked child: the calls split over 8 threads with a tiny switch interval; all symbols are HELD until every
     thread is done and only then copied (a symbol must not change after it was returned)"""
@@ -465,8 +476,14 @@ def _threaded_child(args_list):
     results = [None] * len(args_list)
     held = [None] * len(args_list)
 
+    barrier = threading.Barrier(8)
+
     def work(k):
         for i in range(k, len(args_list), 8):
+            try:
+                barrier.wait(timeout=5)      # the 8 calls of one step (same symbol size) start together
+            except threading.BrokenBarrierError:
+                pass
             content, kw = args_list[i]
             try:
                 q = segno.make(content, **kw)
@@ -481,6 +498,9 @@ def _threaded_child(args_list):
         t.join()
     out = []
     for i, r in enumerate(results):
+        if r is None:
+            out.append(('exc', 'NoResult', ''))
+            continue
         if r[0] == 'ok':
             out.append(('ok', r[1], tuple(bytes(x) for x in held[i].matrix)))
         else:
@@ -496,9 +516,26 @@ def concurrency_pass(cases, st, res, fields):
     if not sample:
         return
     # several symbols of the same size in a row (work areas shared between consecutive calls)
-    sample = sorted(sample, key=lambda c: len(c.qr.matrix))
+    sample = sorted(sample, key=lambda c: len(c.qr.matrix))[: 240 - 240 % 8]
+    # plus groups of 8 calls per symbol size with automatic mask (first use of a size by several threads at once; symbols of one
+    # size created one after the other and held); their sequential reference comes from a second fresh process
+    rnd = random.Random(len(cases))
+    groups = []
+    for v in [-3, -2, -1, 0, 1, 2, 3, 4, 6, 7, 9, 10, 14, 21, 27, 32, 40]:
+        e = rnd.choice(levels_of(v))
+        for _ in range(8):
+            kw = dict(version=vname(v))
+            if e is not None:
+                kw['error'] = LEVEL_NAME[e]
+            groups.append(Case(content_for(rnd, 1, rnd.randint(1, max(1, min(40, max_chars(v, e, 1))))), kw, 'same-size-group'))
+    ctx = multiprocessing.get_context('fork')
+    with ctx.Pool(1) as pool:
+        refs = pool.apply(_sequential_child, ([(c.content, c.kw) for c in groups],))
+    for c, r in zip(groups, refs):
+        _apply_impl(c, r)
+    sample = [c for c in groups if c.qr is not None] + sample
     args = [(c.content, c.kw) for c in sample]
-    with multiprocessing.get_context('fork').Pool(1) as pool:
+    with ctx.Pool(1) as pool:
         outs = pool.apply(_threaded_child, (args,))
     res.evaluations += len(args)
     lines, info = [], []
